@@ -17,7 +17,7 @@ ASSUMPTIONS = [
     "after a failed job was re-submitted the reported overall status is not asserted (the property is silent)",
     "an adopted (already running) job ends according to its own exit code whatever its ancestors did",
 ]
-MIN_CLASSES = {"quick": {"dependent-of-failure": 800, "failing-job": 2500}, "thorough": {"dependent-of-failure": 8000}}
+MIN_CLASSES = {"quick": {"two-stages": 500, "dependent-of-failure": 800, "failing-job": 2500}, "thorough": {"dependent-of-failure": 8000}}
 
 
 def nontrivial(case, H, labels):
@@ -32,7 +32,7 @@ def prop(ctx, case):
 
 
 def cases(ctx):
-    return eg.engine_cases(max_jobs=ctx.pick(5, 7), up_pct=70, fail_pct=35, launch_error_pct=8, tokens=1, foreign=False, wait_pct=80)
+    return eg.engine_cases(max_jobs=ctx.pick(5, 7), up_pct=70, fail_pct=35, launch_error_pct=8, tokens=1, foreign=False, wait_pct=80, stage2_pct=20)
 
 
 PARTS = [Part("engine", prop, strategy=cases, quick=6400, thorough=160000, shrink_budget=40)]
